@@ -18,6 +18,9 @@ def fr(x):
 
 def build(case):
     import mouette as M
+    # sorted neighbourhoods are the library default and the setting of the property; "sort": false is used only to
+    # replay the for-the-record witness of C15_cycle_unsorted_refuted
+    M.config.sort_neighborhoods = bool(case.get("sort", True))
     d = M.mesh.RawMeshData()
     d.vertices += [M.Vec(float(p[0]), float(p[1]), float(p[2])) for p in case["coords"]]
     if case.get("hard"):
